@@ -205,6 +205,19 @@ theorem c18_binary_warnings_table :
       (fun e => e.2 == 0 || pyWarnings.any (fun w => w.2.1 == e.2)) = true ∧
     pyWarnings.length = pyWarningCount ∧ floorWarnings ≤ pyWarnings.length := by decide +kernel
 
+/-! ### composite option names -/
+
+/-- within one property setter, literal names that select the same primary value (e.g. "wh", "whc", "whckl", … all
+    select integrator "whfast") assign the same set of fields, so the tuple of C values a name stands for does not depend
+    on what was set before -/
+theorem c18_composite_setters_uniform :
+    compositeUniform pyComposites = true ∧ pyComposites.length = pyCompositeCount := by decide +kernel
+
+/-- the uniformity check does reject a sibling branch that forgets a field -/
+example : compositeUniform [(n!"S", n!"integrator", n!"wh", [(n!"integrator", n!"'whfast'"), (n!"ri_whfast.corrector", n!"?")]),
+    (n!"S", n!"integrator", n!"whckl", [(n!"integrator", n!"'whfast'"), (n!"ri_whfast.corrector", n!"17"), (n!"ri_whfast.kernel", n!"'lazy'")])] = false := by
+  decide +kernel
+
 /-! ### what the matcher's verdict means — for arbitrary tables -/
 
 /-- soundness of the layout matcher (∀ class maps, ∀ field lists) -/
